@@ -421,7 +421,8 @@ fn dump_body<'tcx>(tcx: TyCtxt<'tcx>, did: DefId, out: &mut String) {
                 out.push(',');
             }
             first = false;
-            write!(out, "{{\"n\":{},\"p\":{}}}", esc(v.name.as_str()), cx.place(p)).unwrap();
+            let pty = p.ty(body, tcx).ty;
+            write!(out, "{{\"n\":{},\"p\":{},\"ty\":{}}}", esc(v.name.as_str()), cx.place(p), cx.ty_s(pty)).unwrap();
         }
     }
     out.push_str("],\"blocks\":[");
